@@ -48,7 +48,7 @@ StrCases(n) ==
 \cup {[r |-> r, f |-> f, a |-> <<c>>] : r \in Strs(n), f \in {"trim", "trimLeft", "trimRight"}, c \in {C(<<"a">>), C(<<" ", "a">>), C(<<"$e$">>), C(<<>>)}}
 \cup {[r |-> r, f |-> "split", a |-> <<c>>] : r \in Strs(n), c \in {C(<<"a">>), C(<<" ">>), C(<<"$e$">>), C(<<"a", "B">>)}}
 \* longer strings that mix 1-, 2-, 3- and 4-byte characters: character positions are not byte positions
-MixedStrs == {C(<<"$e$", "a", "B">>), C(<<"a", "$u$", "B", "$g$">>), C(<<"$g$", "$e$", "a", " ", "$u$">>), C(<<"a", "B", "$e$">>)}
+MixedStrs == {C(<<"$i$", "a", "$e$">>), C(<<"$l$", "$l$", "B">>), C(<<"$e$", "a", "B">>), C(<<"a", "$u$", "B", "$g$">>), C(<<"$g$", "$e$", "a", " ", "$u$">>), C(<<"a", "B", "$e$">>)}
 MixedCases == {[r |-> r, f |-> f, a |-> <<>>] : r \in MixedStrs, f \in {"len", "upper", "lower", "capitalize", "reverse", "first", "last", "trim", "split"}}
          \cup {[r |-> r, f |-> "at", a |-> a] : r \in MixedStrs, a \in IntArgs(-6, 6)}
          \cup {[r |-> r, f |-> "truncate", a |-> a] : r \in MixedStrs, a \in IntArgs(-1, 6)}
